@@ -67,6 +67,11 @@ func modeParams(c *Ctx) {
 			if len(sp.Lex) == 0 {
 				continue
 			}
+			if sp.Kind == "string" && !sp.Array && oas.Kind(s) == "string" && s["format"] == nil && s["enum"] == nil {
+				// a parameter that is supplied with the empty string is supplied:
+				// "" is a string like any other (`?q=`, an empty header line)
+				sp.Lex = append(append([]Lexeme{}, sp.Lex...), Lexeme{"", "accept", ""})
+			}
 			group := "Query"
 			if p.In == "header" {
 				group = "Headers"
